@@ -180,6 +180,8 @@ def find_items(src):
     items = []
     n = len(toks)
 
+    impl_headers = {}
+
     def scan(lo, hi, owner, in_impl):
         k = lo
         while k < hi:
@@ -213,6 +215,7 @@ def find_items(src):
                     ids = [h.text for h in header if h.kind == 'id']
                     own = ids[0] if ids else '?'
                     # skip generic param names like impl<'a> Foo<'a>
+                    impl_headers[own] = src[toks[k].start:toks[j].start].strip()
                 scan(j + 1, close, own, True)
                 k = close + 1
                 continue
@@ -314,4 +317,6 @@ def find_items(src):
             k += 1
 
     scan(0, n, None, False)
+    for it in items:
+        it.impl_header = impl_headers.get(it.owner) if it.owner else None
     return toks, items
